@@ -962,8 +962,14 @@ impl<Front: SocketHandler + std::fmt::Debug, L: ListenerHandler + L7ListenerHand
     ) -> SessionResult {
         let mut counter = 0;
 
+        // A frontend that hung up with a socket error (connection reset) cannot
+        // be flushed to: never delay that close. Delaying it parked the session
+        // on a WRITABLE event that a dead socket never delivers, the write
+        // error only cleared the readiness bit, and the session (its slab
+        // entries, buffers and `max_connections` slot) was never released.
         if self.frontend.readiness().event.is_hup()
-            && !self.delay_close_for_frontend_flush("frontend HUP")
+            && (self.frontend.readiness().event.is_error()
+                || !self.delay_close_for_frontend_flush("frontend HUP"))
         {
             debug!(
                 "{} Mux closing on frontend HUP: {:?}",
